@@ -401,7 +401,7 @@ Example sr_ex_chunked_empty :
     [Some (c_HTP_RESPONSE_COMPLETE, 0%Z, 3%Z, c_HTP_REQUEST_SMUGGLING)] /\
   sr_ex_run (sg_ex_cfg 18000) [w] = sr_final (sg_ex_cfg 18000) (sr_tchunked (sr_treq sg_ex_ok (sg_ex_cfg 18000) wr_ex_req) sr_ex_chr2 (sr_cuts_whole sr_ex_chr2) [] bd_last_line [] []).
 Proof. split; [vm_compute; reflexivity|]. split; [vm_compute; reflexivity|]. split; [vm_compute; reflexivity|]. split; vm_compute; reflexivity. Qed.
-(* the general format admits a size line that starts with a chunk-control character; when that character is CR the known finding F1
+(* the general format allows a size line that starts with a chunk-control character; when that character is CR the known finding F1
    (C03.json F1-lfcr) applies to the end of the HEADER block exactly as for a Content-Length body that starts with CR: of the 68 single
    cuts of  ... chunked CRLF CRLF | CR SP 03 SP ;x LF abc junk LF 00 CRLF CRLF  the two that sr_f1_free rejects (between the CR and the LF
    of the last header line, and of the empty line) are the two whose transactions differ *)
